@@ -2097,11 +2097,11 @@ class Cache:
         """
         select = (
             'SELECT rowid, expire_time, filename FROM Cache'
-            ' WHERE ? < expire_time AND expire_time < ?'
+            ' WHERE expire_time IS NOT NULL AND expire_time < ?'
             ' ORDER BY expire_time LIMIT ?'
         )
-        args = [0, now or time.time(), 100]
-        return self._select_delete(select, args, row_index=1, retry=retry)
+        args = [time.time() if now is None else now, 100]
+        return self._select_delete(select, args, row_index=None, retry=retry)
 
     def cull(self, retry=False):
         """Cull items from cache until volume is less than size limit.
@@ -2202,7 +2202,8 @@ class Cache:
                     sql(delete % ','.join(str(row[0]) for row in rows))
 
                     for row in rows:
-                        args[arg_index] = row[row_index]
+                        if row_index is not None:
+                            args[arg_index] = row[row_index]
                         cleanup(row[-1])
 
         except Timeout:
